@@ -392,6 +392,9 @@ func cmdCheck(args []string) int {
 		seen := map[string]bool{}
 		for _, o := range failing {
 			if seen[o.Name] {
+				if matchKnown(known, prop, o.Name) != nil {
+					nObl-- // a further path on which the same recorded finding fails: not an obligation of the proof either
+				}
 				continue
 			}
 			seen[o.Name] = true
